@@ -9,6 +9,7 @@ import (
 	"unicode/utf8"
 
 	"github.com/tidwall/btree"
+	"github.com/tidwall/geojson"
 	"github.com/tidwall/tile38/internal/collection"
 	"github.com/tidwall/tile38/internal/field"
 	"github.com/tidwall/tile38/internal/log"
@@ -44,6 +45,40 @@ func shrinkFieldJSON(v field.Value) string {
 		}
 	}
 	return string(append(b, '"'))
+}
+
+// shrinkGeoArgs returns the arguments that make "SET key id ... <args>" store
+// the spatial object again. That is "object <json>", except for a point or a
+// rectangle with a coordinate that is not finite ("POINT 1 inf",
+// "BOUNDS -inf -inf inf inf"): JSON has no NaN or Infinity, AppendJSON writes
+// null, which reads back as NaN in a point and is refused in a polygon. Such
+// an object is written the way it was created, with POINT / BOUNDS.
+func shrinkGeoArgs(g geojson.Object) []string {
+	finite := func(f float64) bool { return !math.IsNaN(f) && !math.IsInf(f, 0) }
+	ff := func(f float64) string { return strconv.FormatFloat(f, 'f', -1, 64) }
+	switch g := g.(type) {
+	case *geojson.SimplePoint:
+		if p := g.Base(); !finite(p.X) || !finite(p.Y) {
+			return []string{"point", ff(p.Y), ff(p.X)}
+		}
+	case *geojson.Point:
+		p, z := g.Base(), g.Z()
+		if !finite(p.X) || !finite(p.Y) || !finite(z) {
+			// only a point that has nothing but its two or three coordinates
+			switch g.JSON() {
+			case geojson.NewPoint(p).JSON():
+				return []string{"point", ff(p.Y), ff(p.X)}
+			case geojson.NewPointZ(p, z).JSON():
+				return []string{"point", ff(p.Y), ff(p.X), ff(z)}
+			}
+		}
+	case *geojson.Rect:
+		r := g.Base()
+		if !finite(r.Min.X) || !finite(r.Min.Y) || !finite(r.Max.X) || !finite(r.Max.Y) {
+			return []string{"bounds", ff(r.Min.Y), ff(r.Min.X), ff(r.Max.Y), ff(r.Max.X)}
+		}
+	}
+	return []string{"object", string(g.AppendJSON(nil))}
 }
 
 func (s *Server) aofshrink() {
@@ -155,8 +190,7 @@ func (s *Server) aofshrink() {
 								values = append(values, strconv.FormatFloat(ttl, 'f', -1, 64))
 							}
 							if objIsSpatial(o.Geo()) {
-								values = append(values, "object")
-								values = append(values, string(o.Geo().AppendJSON(nil)))
+								values = append(values, shrinkGeoArgs(o.Geo())...)
 							} else {
 								values = append(values, "string")
 								values = append(values, o.Geo().String())
